@@ -1,7 +1,11 @@
 """Driver-side harness: Socket-level fake (SimSocket), raw-socket shim, driver factories."""
 import sys
 
-CURRENT = {"target": None, "sockets": []}
+CURRENT = {"target": None, "sockets": [], "budget": 200_000}
+
+
+class StepBudgetExceeded(BaseException):
+    """the driver sent more frames than any terminating exchange of this size needs (endless request loop)"""
 
 
 class SimSocket:
@@ -21,6 +25,9 @@ class SimSocket:
     def send(self, msg, timeout=0):
         if self.closed:
             raise OSError("send on closed socket")
+        CURRENT["budget"] -= 1
+        if CURRENT["budget"] < 0:
+            raise StepBudgetExceeded()
         self.sent.append(bytes(msg))
         reply = CURRENT["target"].handle(bytes(msg))
         if reply is not None:
@@ -41,11 +48,12 @@ class SimSocket:
             t.tcp_closed()
 
 
-def install(target):
+def install(target, budget=60_000):
     """Route all driver traffic of this process to `target`."""
     import pycomm3.cip_driver as cd
     CURRENT["target"] = target
     CURRENT["sockets"] = []
+    CURRENT["budget"] = budget
     cd.Socket = SimSocket
 
 
